@@ -155,7 +155,10 @@ def main():
         if want_per_run:
             out["per_run"].append({"index": idx, "tape": tape.digest(),
                                    "sched": (rec["result"] or {}).get("digest") if rec["result"] else None,
-                                   "outcome": outcome_digest(rec)})
+                                   "outcome": outcome_digest(rec),
+                                   "model": (rec["result"] or {}).get("model_digest") if rec["result"] else None,
+                                   "family": (rec["result"] or {}).get("family") if rec["result"] else None,
+                                   "seed": seed})
         idx += cfg.get("step", 1)
     out["wall_s"] = time.time() - t0
     faulthandler.cancel_dump_traceback_later()
